@@ -149,9 +149,9 @@ type c4dpPage struct {
 	ids    []uint32 // the n ids of the page as the writer means them
 	n      int
 	width  int
-	stream []byte // <width> <runs>
+	stream []byte   // <width> <runs>
 	held   []uint32 // the values the runs hold (padding of a last bit-packed group included)
-	kind   string // conformant | short | bad-id
+	kind   string   // conformant | short | bad-id
 	seg    string
 }
 
